@@ -232,7 +232,21 @@ def r06_5(run, model):
                     ex = b.get("expr")
                     if not isinstance(ex, str):
                         continue
-                    calls = [c for c in S.calls(arm["body"], "compile_expr") if c["args"] and ex in S.idents(c["args"][0])]
+                    def translations(body, name, depth=0):
+                        # direct translations of `name`, plus those made by a helper of the file that is handed `name`
+                        got = [c for c in S.calls(body, "compile_expr") if c["args"] and name in S.idents(c["args"][0])]
+                        if depth < 1:
+                            for c in S.walk(body):
+                                if c["k"] != "Call" or S.callee_name(c) in ("compile_expr", None):
+                                    continue
+                                hs = [h for h in model.fns(CM) if h.name == S.callee_name(c) and h.body is not None]
+                                idx = [i for i, a in enumerate(c["args"]) if S.is_path(a, name)]
+                                if len(hs) == 1 and idx:
+                                    ps = [p_ for p_ in hs[0].params() if not p_["self"]]
+                                    if idx[0] < len(ps) and ps[idx[0]]["pat"]["k"] == "PIdent":
+                                        got += translations(hs[0].body, ps[idx[0]]["pat"]["name"], depth + 1)
+                        return got
+                    calls = translations(arm["body"], ex)
                     hit += 1
                     run.ob("R06.5", "compile_expr|EMatch scrutinee compiled once", len(calls) == 1, site(CM, arm["sp"]),
                            f"{len(calls)} compile_expr calls on the scrutinee `{ex}`", witness="an effectful scrutinee runs twice (or never)")
